@@ -455,7 +455,7 @@ def run(ctx: Ctx):
     small = dict(invs=INV15, Horizon=8, StepLens="{2, 3, 4}", MaxSteps=3, Laws="LawsOne", Kinds="KindsOne")
     refuted = K.run_as_coded(ctx, "ascoded", ("ThrustExactlyInterval",), **small)
     refuted_b = K.run_as_coded(ctx, "ascoded_b", ("ThrustExactlyInterval",), deviation="EndMasksStart", **small)
-    cov = K.run_coverage(ctx, "cov", [a for a in K.ACTIONS if a not in ("AppendEvent", "PrepEventsBulk")], invs=INV15,
+    cov = K.run_coverage(ctx, "cov", [a for a in K.ACTIONS if a not in ("AppendEvent", "PrepEventsBulk", "DropEvents")], invs=INV15,
                          Horizon=6, StepLens="{2, 3}", MaxSteps=3, Laws="LawsOne", Kinds="KindsOne")
     ctx.extra["spec_mutants_killed"] = {"EndNeedsLanding(D10)": refuted, "EndMasksStart(D10b)": refuted_b}
     ctx.extra["action_coverage"] = cov
